@@ -102,6 +102,7 @@ func c15(r *R) {
 	c12ReverseStr(r) // "ReverseStr reverses runes" is part of this property's statement too
 	c15NamedType(r)
 	c15PadLarge(r)
+	c15LongWords(r)
 	maxRunes := 4
 	alpha := []string{"a", "B", "é", "-", "*"}
 	if thorough {
@@ -514,4 +515,64 @@ func c15PadLarge(r *R) {
 	}
 	r.Nontrivial("pad-large-a")
 	r.Nontrivial("pad-large-b")
+}
+
+
+// c15LongWords: the case styles on texts with one very long word (around 4 KiB, 64 KiB -- the token limit
+// of a bufio.Scanner -- and beyond) between ordinary ones, and on long texts of short words.
+func c15LongWords(r *R) {
+	for _, n := range []int{4095, 4096, 4097, 65535, 65536, 65537, 70000, 200000} {
+		long := strings.Repeat("abcdefghij", n/10+1)[:n]
+		for _, sep := range []string{" ", "_", "-"} {
+			x := "foo" + sep + "bar" + sep + long + sep + "baz"
+			var camel, snake, kebab string
+			p, msg := enum.Try(func() { camel, snake, kebab = gogu.CamelCase(x), gogu.SnakeCase(x), gogu.KebabCase(x) })
+			r.Eval("case-styles/long-word")
+			wit := fmt.Sprintf("a word of %d letters between foo%sbar and baz", n, sep)
+			if p {
+				r.Bad("case-styles/panic/long-word", wit, "panicked: %s", msg)
+				continue
+			}
+			if want := "fooBar" + strings.ToUpper(long[:1]) + long[1:] + "Baz"; camel != want {
+				r.Bad("CamelCase/loses-or-invents-characters/long-word", wit, "CamelCase returned %d bytes (%q...%q), want %d bytes ending in \"Baz\"", len(camel), head(camel), tail(camel), len(want))
+			}
+			if want := "foo_bar_" + long + "_baz"; snake != want {
+				r.Bad("SnakeCase/wrong/long-word", wit, "SnakeCase returned %d bytes (%q...%q), want %d bytes", len(snake), head(snake), tail(snake), len(want))
+			}
+			if want := "foo-bar-" + long + "-baz"; kebab != want {
+				r.Bad("KebabCase/wrong/long-word", wit, "KebabCase returned %d bytes (%q...%q), want %d bytes", len(kebab), head(kebab), tail(kebab), len(want))
+			}
+		}
+	}
+	// many short words
+	for _, k := range []int{1000, 20000} {
+		ws := make([]string, k)
+		for i := range ws {
+			ws[i] = "ab"
+		}
+		x := strings.Join(ws, " ")
+		r.Eval("case-styles/many-words")
+		if got, want := gogu.SnakeCase(x), strings.Join(ws, "_"); got != want {
+			r.Bad("SnakeCase/wrong/many-words", fmt.Sprintf("%d words \"ab\"", k), "SnakeCase returned %d bytes, want %d", len(got), len(want))
+		}
+		if got := gogu.CamelCase(x); len(got) != 2*k || !strings.HasPrefix(got, "abAbAb") {
+			r.Bad("CamelCase/wrong/many-words", fmt.Sprintf("%d words \"ab\"", k), "CamelCase returned %d bytes starting %q, want %d bytes abAbAb...", len(got), head(got), 2*k)
+		}
+	}
+	r.Nontrivial("long-words-a")
+	r.Nontrivial("long-words-b")
+}
+
+func head(s string) string {
+	if len(s) > 12 {
+		return s[:12]
+	}
+	return s
+}
+
+func tail(s string) string {
+	if len(s) > 8 {
+		return s[len(s)-8:]
+	}
+	return s
 }
